@@ -46,21 +46,17 @@ Lemma dtype_kw_array_weighting_refuted :
   /\ tens_ufunc castQ as_found NPneg32 st_grow rn3w 1 MCall [OpTens rn3w 0] kw32 [] = Err EValue.
 Proof. eexists; eexists; split; vm_compute; reflexivity. Qed.
 
-(* finding discr-reduce-negative-axis: np.add.reduce(y, axis=-1) with y in
-   uniform_discr([0, 0], [1, 3], (2, 3)): NumPy returns a (2,) array, ODL raises
-   ValueError (negative axes are not normalised when selecting the remaining axes). *)
+(* FIXED (commit ca9a353; was finding discr-reduce-negative-axis):
+   np.add.reduce(y, axis=-1) with y in uniform_discr([0, 0], [1, 3], (2, 3)) now
+   returns NumPy's [3; 12] on the partition of axis 0 *)
 Definition d23 : dspace :=
   mkDS [mkAx 0 1 2 (1#2) 1; mkAx 0 3 3 1 2] (mkTS [2%nat; 3%nat] DF64 (WConst (1#2)) 2).
 Definition st_d : @store Q := [mkArr DF64 [2%nat; 3%nat] [0; 1; 2; 3; 4; 5]].
 Definition kwm1 : kwargs := mkKw (AxInt (-1)) false None [].
-Lemma discr_reduce_negative_axis_refuted :
-  (exists l st', raw_ufunc castQ NPadd st_d MReduce kwm1 [RopBuf 0] [None] = Ok (l, st')
-                 /\ a_shape (rd st' 1) = [2%nat] /\ a_data (rd st' 1) = [3; 12])
-  /\ disc_ufunc castQ as_found NPadd st_d d23 1 MReduce [OpDisc d23 0] kwm1 [] = Err EValue.
-Proof.
-  split; [eexists; eexists; split; [vm_compute; reflexivity | split; vm_compute; reflexivity]
-         | vm_compute; reflexivity].
-Qed.
+Example discr_reduce_negative_axis_ok :
+  exists rs st', disc_ufunc castQ as_found NPadd st_d d23 1 MReduce [OpDisc d23 0] kwm1 [] = Ok ([OpDisc rs 1], st')
+    /\ ds_axes rs = [mkAx 0 1 2 (1#2) 1] /\ a_data (rd st' 1) = [3; 12].
+Proof. eexists; eexists; split; [vm_compute; reflexivity | split; vm_compute; reflexivity]. Qed.
 (* the same call with the equivalent non-negative axis succeeds, on the partition of axis 0 *)
 Definition kwp1 : kwargs := mkKw (AxInt 1) false None [].
 Example discr_reduce_axis1_ok :
@@ -93,10 +89,6 @@ Example grow_repaired_ok :
   exists sp' st', tens_ufunc castQ repaired NPadd st_grow rn3 1 MCall [OpTens rn3 0; OpArr 1] kw0 []
                   = Ok ([OpTens sp' 2], st')
     /\ ts_shape sp' = [2%nat; 3%nat] /\ a_data (rd st' 2) = [2; 3; 4; 2; 3; 4].
-Proof. eexists; eexists; split; [vm_compute; reflexivity | split; vm_compute; reflexivity]. Qed.
-Example negaxis_repaired_ok :
-  exists rs st', disc_ufunc castQ repaired NPadd st_d d23 1 MReduce [OpDisc d23 0] kwm1 [] = Ok ([OpDisc rs 1], st')
-    /\ ds_axes rs = [mkAx 0 1 2 (1#2) 1] /\ a_data (rd st' 1) = [3; 12].
 Proof. eexists; eexists; split; [vm_compute; reflexivity | split; vm_compute; reflexivity]. Qed.
 
 (* finding discr-reduce-array-weighting: reduce on an array-weighted discretized
